@@ -13,6 +13,10 @@ CLAIMED = {
    "Exhaustive enumeration of bulk-loaded trees (every multiset of <=2 (thorough <=3) lattice boxes; 14 layout families at every size 0..40 and at fan-out boundary sizes up to 5000), of query boxes (lattice over the extent, enclosing, far, own box, edge/corner touching, degenerate) and of callback histories (continue^j then Stop / wrapped Stop / error / wrapped error for every j), each search on the real tree compared with a linear-scan reference; structural invariants via the verif hook.",
    "Reference: linear scan + closed-interval overlap and box distance in float64 (same closed forms as the property states). Visit lists longer than 12 on trees > 40 items use 15 fixed stop positions instead of all.",
    "bounded-exhaustive enumeration of trees x queries x callback histories on the real code against a linear-scan model", "4/C11"),
+ "C03": ("model_checking",
+   "Exhaustive enumeration of unvalidated lattice geometries (every LineString vertex sequence up to length 4/5 on 3x3, every closed vertex sequence as a ring on 3x3 and 4x4, every shell x every simple hole and hole pairs incl. room for nesting, 4..6-hole polygons from a conflict pool under every hole order, every pair of simple 3x3 polygons as MultiPolygon, NaN/Inf at every ordinate position) with Validate / IsSimple / IsClosed / IsRing / all four decoders compared against a definitional oracle (exact rational arithmetic; interior connectivity = number of interior faces of the exact arrangement), and verdict constancy over the representation orbit (every ring start and direction, hole/member order, translations, reflections).",
+   "Trust: oracle/valid.go + exact/ (independent of the library's algorithms; arrangement self-checked by Euler relation and area balance). Rings with more than 7 vertices and more than 6 interacting holes are outside the bound.",
+   "bounded-exhaustive input enumeration on the real code against a definitional exact-arithmetic oracle", "4/C03"),
 }
 
 PENDING = {}
